@@ -5,6 +5,7 @@ pub mod c04;
 pub mod c05;
 pub mod c06;
 pub mod c07;
+pub mod c08;
 pub mod c09;
 pub mod c10;
 
@@ -54,6 +55,7 @@ pub fn run(id: &str, ctx: &mut Ctx) -> bool {
         "C05" => c05::run(ctx),
         "C06" => c06::run(ctx),
         "C07" => c07::run(ctx),
+        "C08" => c08::run(ctx),
         "C09" => c09::run(ctx),
         "C10" => c10::run(ctx),
         _ => return false,
@@ -95,6 +97,7 @@ pub fn replay_value(id: &str, ctx: &mut Ctx, r: &serde_json::Value) -> bool {
         "C05" => c05::replay(ctx, r),
         "C06" => c06::replay(ctx, r),
         "C07" => c07::replay(ctx, r),
+        "C08" => c08::replay(ctx, r),
         "C10" => c10::replay(ctx, r),
         _ => {
             let _ = (ctx, r);
